@@ -22,13 +22,15 @@
 (* link or copy the checkpoint's files back, reload the manifest, drop the *)
 (* memtables, reopen the commit log, replay it, rewind the sequence        *)
 (* counter, reset the oracle.  What it does beyond that is the constant    *)
-(* `Resets`: the code as it stands resets {"memtable", "oracle"} only -    *)
-(* the block cache, the value-log writer and handles, the version index,   *)
-(* the pending clean-up tasks survive, and commit-log segments are hard    *)
-(* links into the checkpoint.  With Resets = AllResets the model is the    *)
-(* repaired design; TLC shows that THAT satisfies the property, and finds  *)
-(* for every missing reset a behaviour that breaks it (replayed on the     *)
-(* real code by checks/c14.py).                                            *)
+(* `Resets`.  The pinned commit reset {"memtable", "oracle"} only: the     *)
+(* block cache, the value-log writer and handles, the version index and    *)
+(* the pending clean-up tasks survived, and commit-log segments were hard  *)
+(* links into the checkpoint (PinnedResets).  Five `fix:` commits later    *)
+(* the code resets everything (CodeResets = AllResets).  TLC shows that    *)
+(* this design satisfies the property; for every reset the pinned commit   *)
+(* lacked, the model without it still yields a behaviour that breaks the   *)
+(* property, and checks/c14.py runs it on the real code, where it must not *)
+(* reproduce any more (a reverted fix is caught by exactly that run).      *)
 (*                                                                         *)
 (* The property (C14) is stated over the ghost only:                       *)
 (*   CkptContent         a checkpoint directory opened as a database reads *)
@@ -57,7 +59,8 @@ CONSTANTS
     Absent         \* what a read answers for a key that has no value (not a value id)
 
 AllResets == {"memtable", "oracle", "cache", "vlog", "index", "walgc", "walcopy"}
-CodeResets == {"memtable", "oracle"}          \* src/lsm.rs as it stands
+PinnedResets == {"memtable", "oracle"}        \* the pinned commit
+CodeResets == {"memtable", "oracle", "cache", "vlog", "index", "walgc", "walcopy"}    \* the code as it stands
 
 Keys == {KeySeq[i] : i \in 1..Len(KeySeq)}
 
